@@ -62,6 +62,7 @@ def discharge(ded, eng, qualname, clause_of=None, tier='quick', variant=None, la
     # tried against the quantifier-free hypotheses only (dropping hypotheses is sound for proving and keeps
     # nonlinear goals away from the quantified heap invariants); refutations only count on the full query.
     queries, idx = [], []
+    vac_q, vac_i = [], []
     for i, p in enumerate(pend):
         if z3.is_true(p.goal):
             continue
@@ -69,8 +70,8 @@ def discharge(ded, eng, qualname, clause_of=None, tier='quick', variant=None, la
         for h in p.hyps:
             hyps.extend(_conjuncts(h))
         if p.kind in ('cover', 'must-fail'):
-            queries.append((None, smt.to_smt2(hyps, p.goal)))
-            idx.append(i)
+            vac_q.append(smt.to_smt2(hyps, p.goal))
+            vac_i.append(i)
             continue
         qf_hyps = [h for h in hyps if not _has_quant(h)]
         for g in _conjuncts(p.goal):
@@ -92,6 +93,10 @@ def discharge(ded, eng, qualname, clause_of=None, tier='quick', variant=None, la
     for j, r in zip(slot, smt.solve_many(todo, timeout_s=timeout)):
         partial[j] = r
     status = {}
+    # vacuity probes are satisfiability questions (expected `sat`); quantified pcs often answer `unknown`, which is
+    # reported as "not shown", never as a failure: short budget, single attempt
+    for i, r in zip(vac_i, smt.solve_many(vac_q, timeout_s=3, use_cvc5='single')):
+        status[i] = r
     for i, r in zip(idx, partial):
         cur = status.get(i)
         if cur is None:
@@ -118,8 +123,10 @@ def discharge(ded, eng, qualname, clause_of=None, tier='quick', variant=None, la
             r = status.get(members[0])
             if r and r[0] == 'sat':
                 ded.vacuity['covers_sat'] += 1
+            elif r and r[0] == 'unsat':
+                ded.checker_errors.append('%s: precondition unsatisfiable (vacuous contract)' % fname)
             else:
-                ded.checker_errors.append('%s: precondition unsatisfiable or undecided (vacuous contract)' % fname)
+                ded.vacuity['covers_unknown'] = ded.vacuity.get('covers_unknown', 0) + 1
             continue
         if kind == 'must-fail':
             for i in members:
